@@ -36,12 +36,15 @@ pub enum Ev {
     F2Stale,
     /// link-credit 0 with a stale delivery-count: the receiver revoked credit before it saw the last delivery
     F0Stale,
+    /// link-credit 1 with a stale delivery-count (one behind): a flow that repeats the credit the sender has left
+    /// after a grant of 2 and one delivery, yet leaves it none
+    F1Stale,
     /// drain with link-credit 2
     D2,
     /// echo with link-credit 1
     E1,
 }
-pub const ALPHABET: [Ev; 10] = [Ev::A1, Ev::F1, Ev::F2, Ev::A3, Ev::F0, Ev::D2, Ev::F2Stale, Ev::F0Stale, Ev::F1Unset, Ev::E1];
+pub const ALPHABET: [Ev; 11] = [Ev::A1, Ev::F1, Ev::F2, Ev::A3, Ev::F0, Ev::D2, Ev::F2Stale, Ev::F0Stale, Ev::F1Stale, Ev::F1Unset, Ev::E1];
 
 #[derive(Debug, Clone, Default)]
 pub struct Obs {
@@ -164,7 +167,7 @@ pub async fn scenario(idc: u32, events: Vec<Ev>) -> Obs {
         let rcv_dc = c.peer.links.iter().find(|l| l.lib_handle == lib_handle).map(|l| l.delivery_count).unwrap_or(idc);
         let (started_before, _) = deliveries_started(&c.peer.trace, lib_handle);
         let enabled = match ev {
-            Ev::F2Stale | Ev::F0Stale => started_before > 0,
+            Ev::F2Stale | Ev::F0Stale | Ev::F1Stale => started_before > 0,
             // a receiver leaves delivery-count unset only while it does not know it yet
             Ev::F1Unset => started_before == 0 && sender_counts(&c.peer.trace, lib_handle, idc).1 == idc,
             _ => true,
@@ -191,6 +194,7 @@ pub async fn scenario(idc: u32, events: Vec<Ev>) -> Obs {
                     Ev::F1Unset => (None, 1, false, false),
                     Ev::F2Stale => (Some(rcv_dc.wrapping_sub(1)), 2, false, false),
                     Ev::F0Stale => (Some(rcv_dc.wrapping_sub(1)), 0, false, false),
+                    Ev::F1Stale => (Some(rcv_dc.wrapping_sub(1)), 1, false, false),
                     Ev::D2 => (Some(rcv_dc), 2, true, false),
                     _ => (Some(rcv_dc), 1, false, true),
                 };
@@ -424,6 +428,112 @@ pub async fn parked_scenario(k: usize) -> (Vec<(String, String)>, Vec<String>, O
     (fails, trace_to_strings(&c.peer.trace), None)
 }
 
+/// A link that has been detached (without closing) and resumed `cycles` times: the statement's "a send that is
+/// waiting for credit completes as soon as sufficient credit has been granted" holds for it like for a fresh
+/// link.  One delivery before the detach uses up the first credit; after the resume a send waits (`early`) or
+/// is issued only after the grant; the receiver - which kept its link state across the detach - grants one
+/// credit from the delivery-count it knows (1).
+pub async fn resumed_scenario(cycles: usize, early: bool) -> (Vec<(String, String)>, Vec<String>, Option<String>) {
+    let mut fails = vec![];
+    let mut auto = Auto::default();
+    auto.max_frame_size = 512;
+    auto.accept_transfers = true;
+    auto.incoming_window = 100_000;
+    let mut c = match scen::open_client(auto, 512).await {
+        Ok(c) => c,
+        Err(e) => return (fails, vec![], Some(e)),
+    };
+    let mut session = match scen::begin(&mut c, Session::builder()).await {
+        Ok(s) => s,
+        Err(e) => return (fails, vec![], Some(e)),
+    };
+    let mut sender = match drive(&mut c.peer, Sender::builder().name("s1").target("q").sender_settle_mode(SenderSettleMode::Settled).attach(&mut session), scen::H).await {
+        Some(Ok(s)) => s,
+        _ => return (fails, vec![], Some("attach failed".into())),
+    };
+    let lib_handle = c.peer.links.last().map(|l| l.lib_handle).unwrap_or(0);
+    c.peer.grant(0, lib_handle, 1);
+    settle(&mut c.peer, 1).await;
+    match drive(&mut c.peer, sender.send("first"), scen::H).await {
+        Some(Ok(_)) => {}
+        other => return (fails, trace_to_strings(&c.peer.trace), Some(format!("resumed scenario: the first send did not complete: {:?}", other.map(|r| r.map(|_| ()).map_err(|e| e.to_string()))))),
+    }
+    for _ in 0..cycles {
+        let det = match drive(&mut c.peer, sender.detach(), scen::H).await {
+            Some(Ok(d)) => d,
+            other => return (fails, trace_to_strings(&c.peer.trace), Some(format!("resumed scenario: detach failed: {:?}", other.map(|r| r.map(|_| ()).map_err(|(_, e)| e.to_string()))))),
+        };
+        sender = match drive(&mut c.peer, det.resume(), scen::H).await {
+            Some(Ok(s)) => s,
+            other => return (fails, trace_to_strings(&c.peer.trace), Some(format!("resumed scenario: resume failed: {:?}", other.map(|r| r.map(|_| ()).map_err(|e| format!("{e:?}")))))),
+        };
+    }
+    let (lib_handle2, our_handle2) = c.peer.links.iter().rev().find(|l| !l.detached).map(|l| (l.lib_handle, l.our_handle)).unwrap_or((lib_handle, 0));
+    let (started0, _) = deliveries_started(&c.peer.trace, lib_handle2);
+    let grant = |c: &mut scen::Client| {
+        let mut f = c.peer.flow_for(0);
+        f.handle = Some(Handle(our_handle2));
+        f.delivery_count = Some(1);
+        f.link_credit = Some(1);
+        c.peer.send(0, Performative::Flow(f));
+    };
+    if !early {
+        grant(&mut c);
+        settle(&mut c.peer, 2).await;
+    }
+    let task = tokio::spawn(async move {
+        let r = sender.send("second").await.map(|_| ()).map_err(|e| e.to_string());
+        (sender, r)
+    });
+    settle(&mut c.peer, 2).await;
+    if early {
+        let (started, _) = deliveries_started(&c.peer.trace, lib_handle2);
+        if started != started0 {
+            // sending without credit on the new attachment is judged by the history search's oracle, not here
+            return (fails, trace_to_strings(&c.peer.trace), None);
+        }
+        grant(&mut c);
+    }
+    settle(&mut c.peer, 4).await;
+    let (started, _) = deliveries_started(&c.peer.trace, lib_handle2);
+    if started == started0 || !task.is_finished() {
+        fails.push((
+            "blocked-send-not-woken (resumed link)".to_string(),
+            format!(
+                "the link was detached and resumed {cycles} time(s); a send {} the receiver granted 1 credit (delivery-count 1, link-credit 1; the sender had used its only credit before the detach): {} deliveries started after the grant, send() {}",
+                if early { "was waiting when" } else { "was issued after" },
+                started - started0,
+                if task.is_finished() { "returned" } else { "is still pending" }
+            ),
+        ));
+    }
+    task.abort();
+    (fails, trace_to_strings(&c.peer.trace), None)
+}
+
+fn run_resumed(out: &mut Outcome) -> u64 {
+    let mut n = 0;
+    for cycles in 1..=2usize {
+        for early in [true, false] {
+            let scen: Scenario<(Vec<(String, String)>, Vec<String>, Option<String>)> = Arc::new(move || Box::pin(resumed_scenario(cycles, early)));
+            let ex = run_exec(vec![], &RunCfg::none(), &scen);
+            n += 1;
+            match ex.out {
+                Some((fails, trace, mach)) => {
+                    if let Some(m) = mach {
+                        out.machinery_errors.push(m);
+                    }
+                    for (s, d) in fails {
+                        out.violation(s, d, json!({"kind": "resumed", "cycles": cycles, "early": early, "trace": trace}));
+                    }
+                }
+                None => out.machinery_errors.push(format!("resumed scenario cycles={cycles} early={early} died: {:?}", ex.panics)),
+            }
+        }
+    }
+    n
+}
+
 fn run_parked(out: &mut Outcome) -> u64 {
     let mut n = 0;
     for k in 1..=3usize {
@@ -525,6 +635,8 @@ pub fn run(ctx: &Ctx) -> Outcome {
     }
     let sched = schedule_wakeup(ctx, deadline, &mut out);
     let parked = run_parked(&mut out);
+    let resumed = run_resumed(&mut out);
+    out.set("resumed_link_scenarios", resumed);
     out.set("parked_delivery_scenarios", parked);
     out.set("states", states.max(1));
     out.set("transitions", transitions.max(1) + sched.1);
